@@ -9,6 +9,9 @@ def main(argv):
     if not argv:
         print('usage: check <Cnn> [--tier quick|thorough] | check replay <file>')
         return 3
+    if argv[0] == 'selftest':
+        from harness import selftest
+        return selftest.main()
     if argv[0] == 'replay':
         from harness import replay
         return replay.main(argv[1:])
